@@ -146,7 +146,8 @@ def _real_merge(pred, ref, metric, thr, serial):
 def oracle(pred, ref, metric, thr, items):
     inc = metric != "ASSD"
     Pv, Rv = voxel_sets(pred), voxel_sets(ref)
-    t = Fraction(thr)
+    from .realcommon import thr_frac
+    t = thr_frac(thr)
     beats = (lambda s: s >= t) if inc else (lambda s: s <= t)
     better = (lambda a, b: a > b) if inc else (lambda a, b: a < b)
     good = (lambda a, b: a >= b) if inc else (lambda a, b: a <= b)
